@@ -664,6 +664,12 @@ impl fmt::Display for XmlAttribute {
             value.push_str(&format!("{}", v));
         }
 
+        if value.contains('"') && value.contains('\'') {
+            // Both kinds of quote (text children added through the DOM): neither can
+            // delimit the literal as it is.
+            value = value.replace('"', "&quot;");
+        }
+
         write!(f, "{}={}", self.local_name.as_str(), escape(value.as_str()))
     }
 }
